@@ -1,7 +1,15 @@
 //! Conformance drivers (pv-txb). Sub-commands are added per property.
+mod builder;
+mod common;
+mod signing;
+
 fn main() {
     let args = pv_core::Args::parse();
     match args.cmd.as_str() {
+        "signing-replay" => signing::replay(&args),
+        "signing-trace" => signing::trace(&args),
+        "builder-replay" => builder::replay(&args),
+        "builder-trace" => builder::trace(&args),
         other => pv_core::die(&format!("unknown sub-command {other}")),
     }
 }
